@@ -3,6 +3,12 @@
 #ifndef TETL_COMPLEX_TAN_HPP
 #define TETL_COMPLEX_TAN_HPP
 
+#include <etl/_cmath/copysign.hpp>
+#include <etl/_cmath/cos.hpp>
+#include <etl/_cmath/cosh.hpp>
+#include <etl/_cmath/isfinite.hpp>
+#include <etl/_cmath/isinf.hpp>
+#include <etl/_cmath/sin.hpp>
 #include <etl/_complex/complex.hpp>
 #include <etl/_complex/cos.hpp>
 #include <etl/_complex/sin.hpp>
@@ -13,6 +19,12 @@ namespace etl {
 template <typename T>
 [[nodiscard]] constexpr auto tan(complex<T> const& z) -> complex<T>
 {
+    auto const x = z.real();
+    auto const y = z.imag();
+    // once cosh(y) overflows the quotient below is inf/inf; the function has long reached its limit there
+    if (etl::isfinite(x) and etl::isfinite(y) and etl::isinf(etl::cosh(y))) {
+        return {etl::copysign(T(0), etl::sin(x) * etl::cos(x)), etl::copysign(T(1), y)};
+    }
     return etl::sin(z) / etl::cos(z);
 }
 
